@@ -23,6 +23,15 @@ fn dbg_num(s: &str, key: &str) -> i64 {
 }
 
 pub fn inputs(r: &mut Rng, k: u64, target: usize) -> Vec<u8> {
+    if k == 6 {
+        // one OSC whose payload is larger than 64 KiB (clipboard transfers are): no offset may be kept in 16 bits
+        let mut v = b"x\x1b]52;c;".to_vec();
+        v.extend(std::iter::repeat(b'Q').take(60000));
+        v.push(b';');
+        v.extend(std::iter::repeat(b'R').take(10000));      // a field that starts below and ends above offset 65536
+        v.extend_from_slice(b";tail\x07y\x1b]0;t\x1b\\z");
+        return v;
+    }
     if k % 16 == 14 {
         // the deterministic limit family (30..34 separators, 14..17 OSC fields, 1..4 intermediates), both halves
         return crate::gen::limit_family(k / 16);
@@ -218,6 +227,13 @@ pub fn run(seed: u64, n: u64, target: usize, path: &str) -> Value {
                 *e = anstyle::RgbColor(b(0), b(1), b(2));
             }
             let pal = anstyle_lossy::palette::Palette(p);
+            // the darkest greys and the extremes (shortcuts for exact hits compute offsets from the channel value)
+            for g in (0u8..=17).chain(246..=255) {
+                let rgb = anstyle::RgbColor(g, g, g);
+                let _ = anstyle_lossy::rgb_to_ansi(rgb, pal);
+                let _ = anstyle_lossy::rgb_to_xterm(rgb);
+                let _ = anstyle_lossy::color_to_xterm(anstyle::Color::Rgb(rgb));
+            }
             for c in input.chunks(3).take(40) {
                 let rgb = anstyle::RgbColor(c[0], *c.get(1).unwrap_or(&0), *c.get(2).unwrap_or(&255));
                 let _ = anstyle_lossy::rgb_to_ansi(rgb, pal);
